@@ -334,6 +334,23 @@ fn enumerate6(seed: u64, run: u64, tier: Tier, slices: u64) -> Plan {
             }
         }
     }
+    // blobs written with degenerate or unusual cost parameters (whatever a writer accepts): still bound
+    // to the password
+    if wk == WrapKind::Pw {
+        let odd: Vec<PwParams> = if f == 1 || f == 3 { vec![PwParams::Iter(0), PwParams::Iter(1)] } else { vec![PwParams::Argon(16 * 1024, 1, 2), PwParams::Argon(32 * 1024, 1, 4), PwParams::Argon(8 * 1024, 1, 0), PwParams::Argon(8 * 1024, 0, 1)] };
+        for p in odd {
+            for &writer in &readers {
+                let blob3 = b.blob_slot();
+                let rng = b.healthy_rng();
+                b.push(Step::Wrap { blob: blob3, node: writer, wk, key, with: SecretRef::Password { bytes: Bytes::hex(&pw) }, params: p.clone(), rng });
+                for cand in [&pw[..], b"", b"tr0ub4dor&4", b"x", &pw[..5]] {
+                    for &r in &readers {
+                        b.push(Step::Unwrap { blob: blob3, node: r, with: SecretRef::Password { bytes: Bytes::hex(cand) }, faults: vec![], as_kind: None });
+                    }
+                }
+            }
+        }
+    }
     // wrong secrets
     match wk {
         WrapKind::Pie => {
